@@ -183,6 +183,8 @@ def offending(kind, exc_kind=0):
         return BadLen2(), True
     if kind == 41:
         return type("list_iterator", (), {"x": 1})(), False   # named like an iterator type
+    if kind == 42:
+        return {1: "a", "two": 2, None: 3, (1, "a"): 4}, False     # keys that cannot be ordered against one another
     raise ValueError(kind)
 
 
@@ -270,7 +272,7 @@ def total(kind: int, pos: int, ek: int, ntp: int, conv: int) -> str:
     SystemExit / GeneratorExit) at one of 5 positions, 1-3 snapshot tracepoints on the line (the last one with a watch):
     one snapshot per tracepoint is delivered and converts, every other variable is intact, the offending value has an
     entry with its real type name, each snapshot is complete and closed on its own.
-    PRE: 0 <= kind <= 41 and 0 <= pos <= 5 and 0 <= ek <= 5 and 1 <= ntp <= 3 and 0 <= conv <= 1
+    PRE: 0 <= kind <= 42 and 0 <= pos <= 5 and 0 <= ek <= 5 and 1 <= ntp <= 3 and 0 <= conv <= 1
     PRE: ek == 0 or kind in (16, 17, 18, 19, 20, 22)
     POST: _ == ""
     """
@@ -520,11 +522,11 @@ CONDITIONS = [
          twins=["reach", "mutant:no_action_guard@fk == 0 and ntp == 2"],
          bounds="2-3 tracepoints on one line, the one at any position failing for a reason of its own (7 kinds: number format applied to text, malformed message, "
                 "condition value without a text form, unusable MAX_VARIABLES / MAX_STRING_LENGTH, push failing for that snapshot, a failing metric expression)"),
-    dict(fn="total", cubes={"quick": ["kind == %d and ntp == %d and conv == 1" % (k, 1 + (k % 3)) for k in range(42)] +
+    dict(fn="total", cubes={"quick": ["kind == %d and ntp == %d and conv == 1" % (k, 1 + (k % 3)) for k in range(43)] +
                                      ["kind == %d and ntp == %d and conv == 1" % (k, n) for k in (0, 8, 16, 19) for n in (1, 2, 3)],
-                            "thorough": ["kind == %d and ntp == %d and conv == 1" % (k, n) for k in range(42) for n in (1, 2, 3)]},
+                            "thorough": ["kind == %d and ntp == %d and conv == 1" % (k, n) for k in range(43) for n in (1, 2, 3)]},
          twins=["reach", "mutant:dict_unguarded@kind == 0 and ntp == 1 and conv == 1", "mutant:str_unguarded@kind == 17 and ntp == 1 and conv == 1",
                 "mutant:key_names_raw@kind == 8 and ntp == 1 and conv == 1", "mutant:shared_table@kind == 0 and ntp == 2 and conv == 1"],
-         bounds="42 offending-value kinds x 6 positions (local, list element, dict value, object attribute, watch-only, the local named `self`) x 6 exception classes for the hostile kinds; "
+         bounds="43 offending-value kinds x 6 positions (local, list element, dict value, object attribute, watch-only, the local named `self`) x 6 exception classes for the hostile kinds; "
                 "1-3 tracepoints on the line, the last with a watch (quick: one tracepoint count per kind, all three for 4 kinds; thorough: all); real protobuf conversion + serialisation of every snapshot"),
 ]
